@@ -124,4 +124,13 @@ theorem captureTestOutput_body_source : Rapid.Generated.body_captureTestOutput =
      "l := log.New(&b, fmt.Sprintf(\"[%v] \", tb.Name()), log.Lmsgprefix|log.Ldate|log.Ltime|log.Lmicroseconds)",
      "_ = checkOnce(newT(tb, newBufBitStream(buf, false), false, l), prop)", "return b.Bytes()", "}"] := by rfl
 
+/-- `Generator.Draw` re-read from /repo statement by statement: the logged line `[rapid] draw <label>: <value>` prints the value that is returned -/
+theorem draw_source : Rapid.Generated.body_Generator_Draw =
+    ["{", "if t.tbLog {", "t.tb.Helper()", "}", "v := g.value(t)", "if len(t.refDraws) > 0 {",
+     "ref := t.refDraws[t.draws]", "if !reflect.DeepEqual(v, ref) {",
+     "t.tb.Fatalf(\"draw %v differs: %#v vs expected %#v\", t.draws, v, ref)", "}", "}",
+     "if t.tbLog || t.rawLog != nil {", "if label == \"\" {", "label = fmt.Sprintf(\"#%v\", t.draws)", "}",
+     "if t.tbLog {", "t.tb.Helper()", "}", "t.Logf(\"[rapid] draw %v: %#v\", label, v)", "}", "t.draws++",
+     "return v", "}"] := by rfl
+
 end Rapid.C01
